@@ -730,8 +730,10 @@ class CSSSerializer:
             stacks = []
             for item in rule.seq:
                 type_, val = item.type, item.value
-                # content of a string or URI is no block delimiter
-                isblock = type_ not in ('STRING', 'URI')
+                # only a delimiter token is a block delimiter, not e.g. the content
+                # of a string or an identifier written as escape (type_ == val:
+                # blocks closed at the end of the input)
+                isblock = type_ == 'CHAR' or type_ == val
                 # PRE
                 if '}' == val and isblock:
                     # close last open item on stack
